@@ -180,11 +180,16 @@ impl BuiltAdt {
 
         // Handle version-specific chunks based on target version
         let flight_bounds = if version >= AdtVersion::TBC {
-            // Use existing flight bounds or create defaults for TBC+
-            root.flight_bounds.or(Some(MfboChunk {
-                max_plane: [0; 9],
-                min_plane: [0; 9],
-            }))
+            // Use existing flight bounds; defaults are only created when converting to
+            // another version, a tile rebuilt for its own version keeps its content
+            if target_version.is_some() {
+                root.flight_bounds.or(Some(MfboChunk {
+                    max_plane: [0; 9],
+                    min_plane: [0; 9],
+                }))
+            } else {
+                root.flight_bounds
+            }
         } else {
             None // Remove for pre-TBC
         };
